@@ -19,6 +19,7 @@ from sim.core import Check, EventLog, Result  # noqa: E402
 A = "/simfs/allinone"
 S = "/simfs/steps"
 S2 = "/simfs/steps_converted"
+S3 = "/simfs/steps_wide"
 
 
 class C19(Check):
@@ -209,6 +210,14 @@ class C19(Check):
         if scn["convert_chunks"]:
             steps.append(("convert_chunks", ["convert-chunks", S, S2,
                                              "--copy-info"] + common))
+        if scn["convert_chunks"] and scn["max_scales"]:
+            # a destination whose (pre-made) info may declare MORE scales than
+            # the source has: convert-chunks must then fail, not claim success
+            steps.append(("generate_scales_wide",
+                          ["generate-scales-info", S + "/info_fullres.json",
+                           S3, "--target-chunk-size", str(scn["tcs"])] + te))
+            steps.append(("convert_chunks_wide",
+                          ["convert-chunks", S, S3] + common))
         if scn["stats"]:
             steps.append(("stats", ["scale-stats", S]))
         allinone = (["volume-to-precomputed-pyramid", "VOL", A] + conv_opts
@@ -317,6 +326,9 @@ class C19(Check):
                                 key=f"C19/exit-handler-error/{name}/"
                                 f"{pr.handler_errors[0]}")
                     break
+                if not ok and name.endswith("_wide"):
+                    res.probe("wide_step_failed_" + str(pr.exc))
+                    continue
                 if not ok:
                     s_failed = (name, pr.status, pr.exc,
                                 str(pr.exc_obj)[:120])
@@ -403,6 +415,14 @@ class C19(Check):
                     if diff:
                         res.violate("C19/convert-chunks-differs",
                                     f"convert-chunks --copy-info: {diff}")
+                        break
+                elif name == "convert_chunks_wide":
+                    res.probe("convert_chunks_wide_success")
+                    info3, data3 = dataset(S3)
+                    if info3 is None or not complete(
+                            S3, info3, data3,
+                            {s["key"] for s in info3["scales"]},
+                            "convert-chunks"):
                         break
                 elif name == "stats":
                     res.probe("stats_step")
